@@ -3,16 +3,17 @@ TLA+ cannot observe memory: the specification supplies the *histories and inputs
 behavioural properties, so the exploration is exhaustive inside their bounds) and the relations on what may
 be written / allocated; ASan + UBSan, guard bytes / canaries and an operator-new monitor supply the
 observation. A sanitizer stop inside a call the model considers valid is a `trap` / `crash` event, which no
-action of the specification enables. Families: vector (always), string_view, C strings, charconv, bitset
-(quick), plus sets, algorithms, inplace_string, optional/variant/expected (thorough)."""
+action of the specification enables. Families: vector (always), inplace_string, string_view, C strings,
+integer <-> text, character -> floating point (FloatConv), bit/integer helpers, bitset (quick), plus sets, algorithms,
+optional/variant/expected, calendar, duration, mdspan/span (thorough)."""
 import os
 import vlib
 from pipes import vector
 
 LEVEL = "exploration"
 MEM_KINDS = ("trap", "crash", "canary", "hang")
-QUICK = ("stringview", "string", "clib", "intconv", "bitset")
-THOROUGH = QUICK + ("set", "algo", "sum", "calendar")
+QUICK = ("string", "stringview", "clib", "intconv", "intmath", "floatconv", "bitset")
+THOROUGH = QUICK + ("set", "algo", "sum", "calendar", "duration", "md")
 
 
 def _mine(d):
@@ -48,7 +49,7 @@ def run(tier, rep):
     names = [n for n in (QUICK if tier == "quick" else THOROUGH) if os.path.exists(os.path.join(os.path.dirname(__file__), "..", "pipes", n + ".py"))]
     before = rep.cov["events_validated"]
     btr = rep.cov["traces_validated_against_impl"]
-    vlib.run_pipelines(rep, [(n, _sanitized(n)) for n in names], tier)
+    vlib.run_pipelines(rep, [(n, _sanitized(n)) for n in names], tier, par=3)   # bounded: each pipeline compiles several sanitized TUs
     rep.cov["evaluations"] = rep.cov.get("evaluations", 0) + rep.cov["events_validated"] - before
     rep.cov["distinct_nontrivial"] = rep.cov.get("distinct_nontrivial", 0) + rep.cov["traces_validated_against_impl"] - btr
     rep.cov["rule"] = rep.cov.get("rule", "") + (" Other families (%s): the inputs/histories their TLA+ models export, replayed in the sanitizer build; "
